@@ -325,6 +325,13 @@ def prior_activity(kind):
             [st.next_float() for _ in range(7)]
         MersenneTwister(0).next_float()
         junk = [EventType("C07_junk_%d_%s" % (i, kind)) for i in range(5)]
+        # earlier, unrelated code that fills in the arguments of an event it
+        # made without any
+        ev0 = SimEvent(1.0, t, "h")
+        try:
+            ev0.kwargs["batch"] = 3
+        except Exception:  # noqa
+            pass
         keep = []
         for i in range(n):
             e = SimEvent(float(i), t, "h")
